@@ -94,6 +94,12 @@ def rule_attributes(ctx, rng):
             if read_wl() != expect_wl and not ctx.has_violation("rule_attr:input_dict_aliased:inner"):
                 ctx.violation("rule_attr:input_dict_aliased:outer", "mutating the dict passed as edge_whitelist changed "
                               f"the laws: now {read_wl()}", case)
+        if wl is not None and not wl:
+            # an EMPTY mapping passed in is a whitelist like any other: it must be copied too
+            wl[Vertex] = {Vertex: DirectedEdge}
+            if read_wl() != expect_wl:
+                ctx.violation("rule_attr:input_dict_aliased:empty_mapping", "UniverseLaws(edge_whitelist={}) keeps the caller's "
+                              f"empty dict: after the caller filled it the laws read {read_wl()}", case)
         ctx.nontrivial(("attrs", n, str(vals), str(expect_wl)))
 
 
